@@ -8,8 +8,8 @@ import re
 
 LEAN = os.path.join(os.path.dirname(os.path.dirname(os.path.abspath(__file__))), 'lean')
 
-MIN = {'C01': 10, 'C02': 18, 'C03': 10, 'C04': 17, 'C05': 7, 'C06': 9, 'C07': 19, 'C08': 34, 'C09': 4, 'C10': 51, 'C11': 8, 'C12': 3,
-       'C13': 24, 'C14': 16, 'C15': 26, 'C16': 28, 'C17': 63, 'C18': 5, 'C19': 15}
+MIN = {'C01': 10, 'C02': 18, 'C03': 10, 'C04': 17, 'C05': 7, 'C06': 9, 'C07': 19, 'C08': 87, 'C09': 4, 'C10': 51, 'C11': 14, 'C12': 3,
+       'C13': 24, 'C14': 38, 'C15': 26, 'C16': 28, 'C17': 63, 'C18': 5, 'C19': 15}
 
 # the headline theorems: each must be present by name (and is audited like the others)
 HEADLINE = {
